@@ -187,7 +187,7 @@ struct H {   // one history
         static const DataType nums[] = {DataType::Int8, DataType::Int16, DataType::Int32, DataType::Int64, DataType::UInt8, DataType::UInt16, DataType::UInt32, DataType::UInt64, DataType::Float, DataType::Double};
         DataType tgt = r.pick(nums); std::vector<long> off, cnt; rand_box(off, cnt); long n = ArrayModel::nelms(cnt);
         std::vector<Val> src = m.read_box(off, cnt), want((size_t)n); bool judge = true;
-        for (long i = 0; i < n && judge; i++) { long double x = val_num(m.dt, src[(size_t)i]); judge = std::isfinite((double)x) && num_to_val(tgt, x, want[(size_t)i]); }
+        for (long i = 0; i < n && judge; i++) judge = exact_convert(m.dt, src[(size_t)i], tgt, want[(size_t)i]);
         RawBuf buf(tgt, (size_t)n, 0xEF);
         c.op("getData-convert " + tname + " as " + dtname(tgt) + " | off=" + vshow(off) + " cnt=" + vshow(cnt));
         try { a.getData(tgt, buf.data(), to_nd(cnt), to_nd(off)); } catch (std::exception &e) { if (judge) c.check(false, K("convert-exception"), std::string("converting read threw: ") + e.what()); return; }
